@@ -107,7 +107,11 @@ def step (st : St) (line : String) : St × String :=
       | some box, some ps =>
         let (res, gb) : Option (Except Err CL) × Option M3 := match box with
           | none => (mk ps (q S cs) none sel, none)
-          | some (.ok (.diag b)) => (mk ps (q S cs) (some b) sel, none)
+          | some (.ok (.diag b)) =>
+            if 0 < b.x ∧ 0 < b.y ∧ 0 < b.z then (mk ps (q S cs) (some b) sel, none)
+            else    -- zero / negative lengths: the general path (mirrored box, or singular → LinAlgError)
+              let B : M3 := ⟨⟨b.x, 0, 0⟩, ⟨0, b.y, 0⟩, ⟨0, 0, b.z⟩⟩
+              (mkG ps (q S cs) B sel, some B)
           | some (.ok (.full B)) => (mkG ps (q S cs) B sel, some B)
           | some (.error e) =>     -- `_check_coord` (selection errors) comes before the box lookup
             (match selError ps sel with
